@@ -585,9 +585,12 @@ static int op_3_reg_option(
 
     if (operands[3].attribute == OPTION_LSL)
     {
+      // Not the extended register form (lsl #0..#7): let the next table
+      // row (shifted register, lsl #0..#63) have it.  Printing a range error
+      // here and then going on left "Error: Shift out of range (0,7)" on an
+      // instruction that was assembled, with exit status 0.
       if (operands[3].value < 0 || operands[3].value > 7)
       {
-        print_error_range(asm_context, "Shift", 0, 7);
         return -2;
       }
 
